@@ -59,6 +59,10 @@ type World struct {
 	Stranger *Actor // never funded, never authorised
 	InitPos  []uint64
 	VBFT     *config.VBFTConfig
+	// ZeroStakePeers: some genesis peers have InitPos 0.  Every settlement on the
+	// executeSplit2 path then panics (big.Int division by zero in splitNodeFee: initPos+totalPos == 0),
+	// which is C12's concern; such a world only gets a small share of the histories.
+	ZeroStakePeers bool
 
 	Chain      *chain.Chain
 	BootHeight uint32
@@ -102,7 +106,8 @@ func NewWorld(tag string, K, variant int) *World {
 	w.names[OntAddr] = "ONTCTR"
 	w.names[OngAddr] = "ONGCTR"
 
-	mbcv := []uint32{12, 40, 7}[variant%3]
+	mbcv := []uint32{12, 40, 7}[((variant%3)+3)%3]
+	w.ZeroStakePeers = variant < 0
 	w.MBCV = mbcv
 	v := &config.VBFTConfig{
 		N: uint32(K), C: uint32((K - 1) / 3), K: uint32(K), L: uint32(16 * K),
@@ -117,7 +122,11 @@ func NewWorld(tag string, K, variant int) *World {
 	}
 	for i := 0; i < K; i++ {
 		var pos uint64
-		switch variant % 4 {
+		sel := variant % 4
+		if variant < 0 {
+			sel = -1
+		}
+		switch sel {
 		case 0: // equal stakes
 			pos = 100000
 		case 1: // widely spread
@@ -127,7 +136,9 @@ func NewWorld(tag string, K, variant int) *World {
 			if i < 2 {
 				pos = 3000000
 			}
-		default: // some peers without any recorded stake (as in the polaris genesis)
+		case 3: // a few distinct sizes
+			pos = 10000 * uint64(1+(i*7)%5)
+		default: // variant < 0: some peers without any recorded stake (as in the polaris genesis config)
 			pos = uint64(20000 * (i % 3))
 		}
 		w.InitPos = append(w.InitPos, pos)
